@@ -198,6 +198,14 @@ def make_text(rng):
             p_, m, s = V.rand_vector(rng, "3")
             parts.append("CVSS:3." + rng.choice("\u0660\u0661\uff10\uff11\u0966\u0967\u00b9\u2460\u0031\u0030") + s[8:])
             kinds.add("unicode-digit-minor-version")
+            if rng.random() < 0.5:
+                # ... or a minor version that does not exist (3.2 - 3.9), next to a valid vector
+                p2, m2, s2 = V.rand_vector(rng, "3")
+                parts.append(rng.choice([" ", "\n", ", "]))
+                parts.append("CVSS:3." + rng.choice("23456789") + s2[8:])
+                parts.append(rng.choice([" ", "\n", ". "]))
+                parts.append(valid(rng, rng.choice("23")))
+                kinds.add("unsupported-minor-version")
         elif r < 0.72:
             # mandatory metric missing / duplicate
             ver = rng.choice("23")
